@@ -152,6 +152,11 @@ type UP4 struct {
 	// We need both maps to make lookup efficient, but both maps should always be updated in atomic way.
 	fseidToUEAddr map[uint64]uint32
 
+	// programMu serialises the translation of PFCP rules into table/meter writes: the bookkeeping above
+	// (meters, address maps, reference-counted tunnel peers and applications) is shared by all associations
+	// and must stay in step with the writes that are sent for it.
+	programMu sync.Mutex
+
 	reportNotifyChan chan<- uint64
 	endMarkerChan    chan []byte
 }
@@ -538,7 +543,12 @@ func (up4 *UP4) listenToDDNs() {
 			digestData := up4.p4client.GetNextDigestData()
 
 			ueAddr := binary.BigEndian.Uint32(digestData)
-			if fseid, exists := up4.ueAddrToFSEID[ueAddr]; exists {
+
+			up4.programMu.Lock()
+			fseid, exists := up4.ueAddrToFSEID[ueAddr]
+			up4.programMu.Unlock()
+
+			if exists {
 				notifier.Notify(fseid)
 			}
 		}
@@ -1486,6 +1496,9 @@ func (up4 *UP4) SendMsgToUPF(method upfMsgType, all PacketForwardingRules, updat
 
 	up4Log := logger.PfcpLog.With("method-type", method, "all", all, "updated-rules", updated)
 	up4Log.Debugln("sending PFCP message to UP4..")
+
+	up4.programMu.Lock()
+	defer up4.programMu.Unlock()
 
 	switch method {
 	case upfMsgTypeAdd:
